@@ -753,7 +753,10 @@ fill_yly_md_all(
 		 * the week day*/
 		const unsigned int nmd = echs_scale_ndim(s, y, m[i]);
 
-		for (unsigned int md = 1U, w = ymd_get_wday(y, m[i], 1U);
+		/* (the scale's own weekday, the month needn't be Gregorian) */
+		for (unsigned int md = 1U, w = s == SCALE_GREGORIAN
+			     ? ymd_get_wday(y, m[i], 1U)
+			     : echs_scale_wday(s, y, m[i], 1U);
 		     md <= nmd; md++, w = inc_wd((echs_wday_t)w)) {
 			if (!((wd_mask >> w) & 0b1U)) {
 				/* weekday is masked out */
